@@ -150,8 +150,10 @@ fn check(s: &str) -> Result<bool, String> {
             if !kind_ok {
                 return Err(format!("parse({s:?}) failed with {:?}, expected {:?}", e, w));
             }
-            if style != s {
-                return Err(format!("error for {s:?} quotes the style as {style:?}"));
+            // the `style` field (the description the error quotes) is not pinned by the property beyond
+            // being about this description: it must contain the word it complains about
+            if !style.contains(&word) {
+                return Err(format!("error for {s:?} quotes the style as {style:?}, which does not contain the word {word:?}"));
             }
             let msg = e.to_string();
             if !msg.contains(&word) {
